@@ -73,6 +73,7 @@ func runC01(c *core.Ctx) {
 			continue
 		}
 		cfg := twinConfig(c, rng)
+		cfg.KeepGoing = true
 		dir, done := caseDir(c, i)
 		rep := twin.RunProgram(rng, dir, cfg)
 		done()
